@@ -45,7 +45,7 @@ def bounds(tier):
 def required_guards(tier):
     return ['outcome:ok-untouched', 'outcome:resolved', 'outcome:read-conflict',
             'outcome:unresolved', 'reason:13', 'reason:12', 'readcurrent_checked',
-            'pure_reads_checked', 'height>=2']
+            'pure_reads_checked', 'c:height>=3', 'py:height>=3']
 
 
 def configs(tier):
@@ -60,12 +60,17 @@ def configs(tier):
                         out.append((fam, kind, impl, (2, 2), 4, 1, 10))
                         out.append((fam, kind, impl, (3, 2), 5 if c else 4, 1, 20))
                         out.append((fam, kind, impl, (4, 2), 6 if c else 5, 1, 40))
+                        # deep bases: 6 keys built in ascending order at 2/2 (4 levels), thinned
+                        # by every deletion history
+                        out.append((fam, kind, impl, (2, 2), 6, 'thin:asc', 40 if c else 80))
                     else:
                         out.append((fam, kind, impl, (2, 2), 5, 1, 100))
                         out.append((fam, kind, impl, (3, 2), 6 if c else 5, 1, 100))
                         out.append((fam, kind, impl, (4, 2), 7 if c else 6, 1, 200))
                         out.append((fam, kind, impl, (4, 3), 7 if c else 6, 1, 200))
                         out.append((fam, kind, impl, (4, 2), 4, 2, 300))
+                        for order in ('asc', 'desc', 'mid'):
+                            out.append((fam, kind, impl, (2, 2), 7, 'thin:' + order, 300))
                 else:
                     out.append((fam, kind, impl, (4, 2), 5 if c else 4, 1, 5))
     return out
@@ -180,7 +185,10 @@ def pure_reads(ctx, conn, t, keys, grid, rep, guards, case):
 
 def job(fam, kind, impl, sizes, n, L):
     ctx = O.Ctx(fam, kind, impl)
-    ex = S.explorer(fam, kind, impl, sizes, n, 'centred', 'C08')
+    thin = None
+    if isinstance(L, str):
+        thin, L = L[5:], 1
+    ex = S.explorer(fam, kind, impl, sizes, n, 'centred', 'C08', thin=thin)
     keys, grid, vals = ex.keys, ex.grid, ex.vals
     bases = []
 
@@ -190,6 +198,9 @@ def job(fam, kind, impl, sizes, n, L):
     ex.run()
     rep = Reporter('C08')
     guards = collections.Counter(ex.guards)
+    for g in list(guards):
+        if g.startswith('height'):
+            guards['%s:%s' % (impl, g)] = guards[g]
     outcomes = collections.Counter()
     base_case = dict(fam=fam, kind=kind, impl=impl, sizes=sizes, n=n, L=L)
     scenarios = 0
